@@ -406,6 +406,9 @@ class _UnaddressedInstance(Instance):
             raise _bad_frame_length
         f[15:8] = self._val
 
+    def __eq__(self, other):
+        return isinstance(other, self.__class__)
+
     def __str__(self):
         return "{}()".format(self.__class__.__name__)
 
